@@ -1064,3 +1064,94 @@ func ruleR03_19(w *World, r *Report) {
 	})
 	r.Check(descends, "types.IsNullValue/looks behind pointers", u.Pos(fn.Pos()), "Elem() in a loop or a recursive call", "IsNullValue tests only the value it is handed: a pointer to a nil slice or map (or a pointer to a nil pointer) passes, is held as a live element by the issuing replica and arrives as null - a tombstone - everywhere else")
 }
+
+// R13.11 the three places a key lookup must not lose: found by key, adopted on subscribe, told apart by type
+func ruleR13_11(w *World, r *Report) {
+	r.Rule("R13.11", "a create or subscribe request is classified on the datatype document found by its key (the result of GetDatatypeByKey is what evaluatePushPullCase stores and examines); a granted subscription adopts the datatype's DUID for the handler and for the answer; the client's registry hands out the registered datatype only for the same type and refuses another type", 5)
+	if us := w.Server(); us != nil {
+		if fn := us.Fn(pService, "PushPullHandler", "evaluatePushPullCase"); fn == nil {
+			r.Lost("PushPullHandler.evaluatePushPullCase")
+		} else {
+			good := false
+			for _, st := range storesTo(fn, ".datatypeDoc") {
+				if ex, ok := st.Val.(*ssa.Extract); ok && ex.Index == 0 {
+					if c, isCall := ex.Tuple.(*ssa.Call); isCall && calleeName(c) == "GetDatatypeByKey" {
+						good = true
+					}
+				}
+				if c, isCall := st.Val.(*ssa.Call); isCall && calleeName(c) == "GetDatatypeByKey" {
+					good = true
+				}
+			}
+			r.Check(good, "evaluatePushPullCase/classified on the document found by key", us.Pos(fn.Pos()), "its.datatypeDoc = GetDatatypeByKey(...)", "the datatype document found by the request's key is not what evaluatePushPullCase examines: a create for a key that exists is classified as 'nothing matches' and creates a second datatype under the key; a subscribe never finds what it asks for")
+		}
+		if fn := us.Fn(pService, "PushPullHandler", "subscribeDatatype"); fn == nil {
+			r.Lost("PushPullHandler.subscribeDatatype")
+		} else {
+			adopt := map[string]bool{}
+			for _, st := range storesTo(fn, ".DUID") {
+				if strings.HasSuffix(canonName(st.Val), "datatypeDoc.DUID") {
+					adopt[canonName(st.Addr)] = true
+				}
+			}
+			r.Check(adopt["$0.DUID"], "subscribeDatatype/handler adopts the datatype's DUID", us.Pos(fn.Pos()), "its.DUID = its.datatypeDoc.DUID", "a granted subscription goes on under the DUID the requester made up: nothing is pulled (operations are stored by DUID) and what it pushes later is filed under a DUID no datatype has")
+			ans := false
+			for k := range adopt {
+				if strings.HasSuffix(k, "resPushPullPack.DUID") {
+					ans = true
+				}
+			}
+			r.Check(ans, "subscribeDatatype/answer carries the datatype's DUID", us.Pos(fn.Pos()), "its.resPushPullPack.DUID = its.datatypeDoc.DUID", "the answer that grants a subscription does not carry the datatype's DUID: the subscriber keeps its made-up DUID and every later sync names a datatype the server does not know")
+		}
+	}
+	u := w.Client()
+	fn := u.Fn(pCManagers, "DatatypeManager", "ExistDatatype")
+	if fn == nil || len(fn.Params) < 3 {
+		r.Lost("DatatypeManager.ExistDatatype")
+		return
+	}
+	typeOf := ssa.Value(fn.Params[2])
+	sameBad, otherBad := "", ""
+	nSame, nOther := 0, 0
+	forEachOwnInstr(fn, func(in ssa.Instruction) {
+		ret, ok := in.(*ssa.Return)
+		if !ok || len(ret.Results) != 2 {
+			return
+		}
+		isNil := func(v ssa.Value) bool { k, isK := v.(*ssa.Const); return isK && k.Value == nil }
+		hands, refuses := !isNil(ret.Results[0]), isNil(ret.Results[0]) && !isNil(ret.Results[1])
+		if !hands && !refuses {
+			return
+		}
+		paths, okp := reachingLitsOwn(fn, nil, ret)
+		if !okp || len(paths) == 0 {
+			sameBad = "undecided paths"
+			return
+		}
+		for _, p := range paths {
+			var op token.Token
+			for _, l := range p {
+				if l.Kind != "cmp" || (l.Op != token.EQL && l.Op != token.NEQ) {
+					continue
+				}
+				x, y := loadSource(l.X), loadSource(l.Y)
+				if (x == typeOf && strings.Contains(canonName(y), "GetType()")) || (y == typeOf && strings.Contains(canonName(x), "GetType()")) {
+					op = l.Op
+				}
+			}
+			if hands {
+				nSame++
+				if op != token.EQL {
+					sameBad = litsString(p)
+				}
+			} else {
+				nOther++
+				if op != token.NEQ {
+					otherBad = litsString(p)
+				}
+			}
+		}
+	})
+	r.Check(sameBad == "" && nSame > 0, "DatatypeManager.ExistDatatype/registered datatype only for the same type", u.Pos(fn.Pos()), "(data, nil) under GetType() == typeOf", "the registered datatype is handed out under "+sameBad+", not under 'its type is the requested one': a request for another type gets the datatype of the first type (the caller's type assertion then panics or, worse, succeeds on the interface)")
+	r.Check(otherBad == "" && nOther > 0, "DatatypeManager.ExistDatatype/another type refused", u.Pos(fn.Pos()), "(nil, error) under GetType() != typeOf", "the refusal is returned under "+otherBad+", not under 'its type differs from the requested one': the same key requested again with the same type is refused, or another type is not")
+}
